@@ -1,6 +1,9 @@
 //! webp container area: runs the real webpsan on case lines
 //!   webp <reader> <allow:0|1> <len> <off:hex,...|-> [table ignored]
 //!   lossless <w> <h> <hex>          -> verdict of LosslessImage::read over the given body bytes
+//!   wcount <reader> <allow> <len> <exts>                 -> n=<inner operations of the fault-free run> <result>
+//!   wfault <k> <kind> <reader> <allow> <len> <exts>      -> result when the k-th inner operation fails with <kind>
+//! (inner operations = read / skip / stream_position / stream_len calls on the input, below webpsan's own BufReaders)
 #[path = "common.rs"]
 mod common;
 #[path = "lib_readers.rs"]
@@ -8,6 +11,8 @@ mod lib_readers;
 
 use bitstream_io::LE;
 use lib_readers::{io_kind, Sparse};
+use mediasan_common::Skip;
+use std::io::{self, Read};
 use std::num::NonZeroU32;
 use webpsan::parse::{BitBufReader, LosslessImage, ParseError};
 use webpsan::{Config, Error};
@@ -53,6 +58,77 @@ fn run_webp(args: &[&str]) -> String {
     }
 }
 
+/// Read+Skip wrapper that counts the calls made on the input and fails the k-th with the given kind, without
+/// touching the wrapped reader on that call
+struct FaultMeter {
+    inner: Sparse,
+    count: u64,
+    fault: Option<(u64, io::ErrorKind)>,
+}
+
+impl FaultMeter {
+    fn tick(&mut self) -> Option<io::ErrorKind> {
+        let k = self.count;
+        self.count += 1;
+        match self.fault {
+            Some((i, kind)) if i == k => Some(kind),
+            _ => None,
+        }
+    }
+}
+
+impl Read for FaultMeter {
+    fn read(&mut self, buf: &mut [u8]) -> io::Result<usize> {
+        match self.tick() {
+            Some(k) => Err(io::Error::from(k)),
+            None => self.inner.read(buf),
+        }
+    }
+}
+
+impl Skip for FaultMeter {
+    fn skip(&mut self, amount: u64) -> io::Result<()> {
+        match self.tick() {
+            Some(k) => Err(io::Error::from(k)),
+            None => self.inner.skip(amount),
+        }
+    }
+    fn stream_position(&mut self) -> io::Result<u64> {
+        match self.tick() {
+            Some(k) => Err(io::Error::from(k)),
+            None => self.inner.stream_position(),
+        }
+    }
+    fn stream_len(&mut self) -> io::Result<u64> {
+        match self.tick() {
+            Some(k) => Err(io::Error::from(k)),
+            None => self.inner.stream_len(),
+        }
+    }
+}
+
+fn kind_of(s: &str) -> io::ErrorKind {
+    match s {
+        "Other" => io::ErrorKind::Other,
+        "PermissionDenied" => io::ErrorKind::PermissionDenied,
+        "TimedOut" => io::ErrorKind::TimedOut,
+        "WouldBlock" => io::ErrorKind::WouldBlock,
+        "InvalidData" => io::ErrorKind::InvalidData,
+        "UnexpectedEof" => io::ErrorKind::UnexpectedEof,
+        "InvalidInput" => io::ErrorKind::InvalidInput,
+        _ => panic!("kind"),
+    }
+}
+
+fn run_wfault(k: Option<(u64, io::ErrorKind)>, args: &[&str]) -> (u64, String) {
+    let (rd, allow, len, exts) = (args[0], args[1], args[2], args[3]);
+    let sp = Sparse::new(len.parse().unwrap(), Sparse::parse_exts(exts), rd == "strict");
+    let cfg = Config::builder().allow_unknown_chunks(allow == "1").build();
+    let mut fm = FaultMeter { inner: sp, count: 0, fault: k };
+    let r = show(webpsan::sanitize_with_config(&mut fm, cfg));
+    (fm.count, r)
+}
+
 fn run_lossless(args: &[&str]) -> String {
     let w: u32 = args[0].parse().unwrap();
     let h: u32 = args[1].parse().unwrap();
@@ -69,6 +145,11 @@ fn main() {
     common::main_loop(|kind, args| match kind {
         "webp" => run_webp(args),
         "lossless" => run_lossless(args),
+        "wcount" => {
+            let (n, r) = run_wfault(None, args);
+            format!("n={n} {r}")
+        }
+        "wfault" => run_wfault(Some((args[0].parse().unwrap(), kind_of(args[1]))), &args[2..]).1,
         _ => format!("unknown-kind {kind}"),
     });
 }
